@@ -190,6 +190,36 @@ def check_escape_eval(ctx, led, v, rule="C04.escape"):
     return n_sites
 
 
+def must_reach(stmts, target):
+    """Every path through `stmts` that does not end in a raise executes `target`."""
+    for i, st in enumerate(stmts):
+        if st is target:
+            return True, None
+        contains = any(x is target for x in ast.walk(st))
+        if contains:
+            if isinstance(st, ast.If):
+                if any(x is target for b in st.body for x in ast.walk(b)):
+                    inner, why = must_reach(st.body, target)
+                    other = st.orelse
+                else:
+                    inner, why = must_reach(st.orelse, target)
+                    other = st.body
+                if not inner:
+                    return False, why
+                if not (other and G.terminates(other) and G.exits_kind(other) <= {"raise"}):
+                    # the other arm continues: it must itself reach a store later (not modelled)
+                    return False, "the arm opposite to the store at line %d does not raise" % st.lineno
+                return True, None
+            if isinstance(st, ast.Try):
+                return must_reach(st.body, target)
+            return False, "store nested in %s" % type(st).__name__
+        # a statement before the store: it must not leave the iteration without raising
+        for x in ast.walk(st):
+            if isinstance(x, (ast.Continue, ast.Break, ast.Return)):
+                return False, "`%s` at line %d leaves the iteration before the store" % (type(x).__name__.lower(), x.lineno)
+    return False, "store not found on the straight-line path"
+
+
 def check_escape_parse(ctx, led, v, rule="C04.escape"):
     """Implicit-exception sites inside parse_vector (not interpreted: string parsing)."""
     summ = parse_summary(ctx, v)
@@ -271,6 +301,56 @@ def check_escape_parse(ctx, led, v, rule="C04.escape"):
             led.check(good, rule, ck, module.where(n), "%s() on an input component can raise outside the taxonomy" % n.func.id)
         if isinstance(n, ast.Assign) and isinstance(n.targets[0], (ast.Tuple, ast.List)):
             n_sites += 1  # discharged by C04.store.split
+    # format templates must be constants: a template built from the input lets '{' / '}' in the
+    # input raise ValueError/KeyError/IndexError from str.format
+    for fn in [pv, ctx.repo.method(info["mod"], info["cls"], "check_mandatory")]:
+        for n in ast.walk(fn.node):
+            c = call_of(n, "format")
+            if c is None:
+                continue
+            n_sites += 1
+            recv, fargs = c
+            ck = "%s.%s::%s" % (info["cls"], fn.name, short(n))
+            try:
+                tmpl = ctx.ce.eval(module, recv, rule)
+            except AnalysisError:
+                tmpl = None
+            if not isinstance(tmpl, str):
+                led.violation(
+                    rule,
+                    ck,
+                    module.where(n),
+                    "the str.format template is not a constant (it contains text derived from the input): braces in the "
+                    "input make format() raise ValueError/KeyError/IndexError outside the CVSSError taxonomy",
+                )
+                continue
+            import string as _string
+
+            try:
+                fields = [f for _, f, _, _ in _string.Formatter().parse(tmpl) if f is not None]
+                idx = [int(f.split(".")[0].split("[")[0]) for f in fields if f.split(".")[0].split("[")[0].isdigit()]
+                auto = len([f for f in fields if f == ""])
+                good = (not idx or max(idx) < len(fargs)) and auto <= len(fargs) and all(f == "" or f.split(".")[0].split("[")[0].isdigit() or any(kw.arg == f for kw in n.keywords) for f in fields)
+            except ValueError:
+                good = False
+            led.check(good, rule, ck, module.where(n), "format template %r does not fit its %d argument(s)" % (tmpl, len(fargs)))
+    # every accepted field must be recorded: a non-raising path through the loop body that skips
+    # the store makes the duplicate check blind for that field
+    loop = summ.get("loop")
+    if loop is not None:
+        for store in summ["stores"]:
+            stmt = store
+            while not isinstance(stmt, ast.stmt):
+                stmt = module.parent(stmt)
+            ok, why = must_reach(loop.body, stmt)
+            led.check(
+                ok,
+                "C04.store.every",
+                "%s.parse_vector::%s recorded on every accepting path" % (info["cls"], short(stmt)),
+                module.where(stmt),
+                "some accepted field is not recorded in the metric map (%s): a later repetition of that metric passes the "
+                "duplicate check" % why,
+            )
     # raises under unrecognised conditions: listed as undecided (may over-reject)
     recognised = 0
     for n in ast.walk(pv.node):
